@@ -8,10 +8,12 @@
 // Allocation-recording trick: babylon allocates block tables and blocks (and nothing else here) with the
 // ALIGNED global operator new / delete.  This executable replaces those four functions.  Every aligned
 // allocation made while the scheduler is active gets a sequence number `aid`; a free does not hand the
-// memory back but poisons it and keeps it in quarantine, so (1) identities are never recycled inside an
-// execution, (2) "snapshot used after its table was freed" is an observable event (the driver asks
-// is_freed() before it touches a snapshot) instead of silent corruption, (3) babylon itself reading a
-// freed table sees poison and dies (status crash).  An element is identified by (aid of its block,
+// memory back but keeps it in quarantine, so (1) identities are never recycled inside an execution,
+// (2) "snapshot used after its table was freed" is an observable event (the driver asks is_freed()
+// before it touches a snapshot) instead of silent corruption, (3) babylon itself reading a table that
+// was given back (legitimate more than 64 s after it was superseded: a thread may be stalled that long
+// inside an operation) still reads what was there; whether that read was inside the guaranteed period
+// is judged by the specifications from the recorded times.  An element is identified by (aid of its block,
 // offset in the block).  Which aid is a table and which a block is not decided here: a table is what
 // _block_table / the retire list point to, a block is what holds elements (the specifications decide).
 //
@@ -79,8 +81,7 @@ void rec_free(void* p) {
   bool ok = !rc.freed && rc.p == (char*)p;
   vsched::eventf(false, "\"k\":\"free\",\"aid\":%d,\"ok\":%s,\"now\":%ld", r + 1, ok ? "true" : "false", now_s());
   if (ok) {
-    rc.freed = true;
-    memset(rc.p, 0xFB, rc.sz); // poison, keep in quarantine
+    rc.freed = true; // kept in quarantine (neither reused nor poisoned)
   }
   tl_in_hook = false;
 }
@@ -158,14 +159,13 @@ void log_elem_ret(const char* op, long n, V& v, Elem* e) {
   elem_id(e, &aid, &off);
   // the user reads the element it was handed: it must be a constructed object
   int val = (aid >= 0 && !is_freed(e)) ? (e->v == MARK ? 1 : 0) : -1;
-  vsched::eventf(true, "\"k\":\"ret\",\"op\":\"%s\",\"n\":%ld,\"aid\":%d,\"off\":%ld,\"val\":%d,\"now\":%ld", op, n, aid, off, val, now_s());
+  vsched::eventf(false, "\"k\":\"ret\",\"op\":\"%s\",\"n\":%ld,\"aid\":%d,\"off\":%ld,\"val\":%d,\"now\":%ld", op, n, aid, off, val, now_s());
 }
 
 template <typename V>
 void run_op(V& v, Holder<V>& h, const OpSpec& o) {
   char ops[2] = {o.op, 0};
   if (o.op == 'w') {
-    ::usleep(0); // keep the shim linked
     struct timespec ts = {(time_t)o.n, 0};
     ::nanosleep(&ts, nullptr);
     return;
@@ -184,29 +184,29 @@ void run_op(V& v, Holder<V>& h, const OpSpec& o) {
     }
     case 'r': {
       v.reserve((size_t)o.n);
-      vsched::eventf(true, "\"k\":\"ret\",\"op\":\"r\",\"n\":%ld,\"aid\":0,\"off\":0,\"val\":%ld,\"now\":%ld", o.n, (long)v.size(), now_s());
+      vsched::eventf(false, "\"k\":\"ret\",\"op\":\"r\",\"n\":%ld,\"aid\":0,\"off\":0,\"val\":0,\"now\":%ld", o.n, now_s());
       break;
     }
     case 's': {
       h.snap = v.snapshot();
       h.has = true;
-      vsched::eventf(true, "\"k\":\"ret\",\"op\":\"s\",\"n\":0,\"aid\":%d,\"off\":0,\"val\":%ld,\"now\":%ld", table_aid(v, h.snap._block_table), (long)h.snap.size(), now_s());
+      vsched::eventf(false, "\"k\":\"ret\",\"op\":\"s\",\"n\":0,\"aid\":%d,\"off\":0,\"val\":%ld,\"now\":%ld", table_aid(v, h.snap._block_table), (long)h.snap.size(), now_s());
       break;
     }
     case 'u': {
       int tb = h.has ? table_aid(v, h.snap._block_table) : -1;
-      if (!h.has || tb < 0 || is_freed(h.snap._block_table)) {
+      if (h.has && tb > 0 && is_freed(h.snap._block_table)) {
         // the table behind the held snapshot is gone: touching it would be a use after free
-        vsched::eventf(true, "\"k\":\"use\",\"tb\":%d,\"n\":%ld,\"aid\":-1,\"off\":0,\"val\":-1,\"freed\":1,\"now\":%ld", tb, o.n, now_s());
-      } else if ((size_t)o.n >= h.snap.size()) {
-        vsched::eventf(true, "\"k\":\"use\",\"tb\":%d,\"n\":%ld,\"aid\":-1,\"off\":0,\"val\":-1,\"freed\":0,\"now\":%ld", tb, -1L, now_s());
+        vsched::eventf(false, "\"k\":\"ret\",\"op\":\"u\",\"n\":%ld,\"tb\":%d,\"aid\":-1,\"off\":0,\"val\":-1,\"freed\":1,\"now\":%ld", o.n, tb, now_s());
+      } else if (!h.has || tb < 0 || (size_t)o.n >= h.snap.size()) {
+        vsched::eventf(false, "\"k\":\"ret\",\"op\":\"u\",\"n\":%ld,\"tb\":%d,\"aid\":-1,\"off\":0,\"val\":-1,\"freed\":0,\"now\":%ld", o.n, h.has ? tb : -1, now_s());
       } else {
         Elem& e = h.snap[(size_t)o.n];
         int aid;
         long off;
         elem_id(&e, &aid, &off);
         int val = (aid >= 0 && !is_freed(&e)) ? (e.v == MARK ? 1 : 0) : -1;
-        vsched::eventf(true, "\"k\":\"use\",\"tb\":%d,\"n\":%ld,\"aid\":%d,\"off\":%ld,\"val\":%d,\"freed\":0,\"now\":%ld", tb, o.n, aid, off, val, now_s());
+        vsched::eventf(false, "\"k\":\"ret\",\"op\":\"u\",\"n\":%ld,\"tb\":%d,\"aid\":%d,\"off\":%ld,\"val\":%d,\"freed\":0,\"now\":%ld", o.n, tb, aid, off, val, now_s());
       }
       break;
     }
@@ -223,12 +223,12 @@ void run_op(V& v, Holder<V>& h, const OpSpec& o) {
         }
       });
       ids += "]";
-      vsched::eventf(true, "\"k\":\"ret\",\"op\":\"f\",\"n\":%ld,\"aid\":0,\"off\":0,\"val\":%ld,\"els\":%s,\"now\":%ld", o.n, idx, ids.c_str(), now_s());
+      vsched::eventf(false, "\"k\":\"ret\",\"op\":\"f\",\"n\":%ld,\"aid\":0,\"off\":0,\"val\":%ld,\"els\":%s,\"now\":%ld", o.n, idx, ids.c_str(), now_s());
       break;
     }
     case 'g': {
       v.gc();
-      vsched::eventf(true, "\"k\":\"ret\",\"op\":\"g\",\"n\":0,\"aid\":0,\"off\":0,\"val\":0,\"now\":%ld", now_s());
+      vsched::eventf(false, "\"k\":\"ret\",\"op\":\"g\",\"n\":0,\"aid\":0,\"off\":0,\"val\":0,\"now\":%ld", now_s());
       break;
     }
     default:
